@@ -5,38 +5,44 @@ import MmtkModel.Lemmas.SideFind
 /-!
 # C22 — Side-metadata search and scan agree with a naive scan
 
-Status: **partial**.  Proved here: the bit-selection lemmas of the inner loops (`ctz_spec`,
-`hiBit_spec`, `rangeMask` and `findFirstBit_spec` / `findLastBit_spec`), the exact
-characterisation of the one case in which the real fast and naive backward searches disagree on
-inputs in the property's scope (`findPrev_own_region_defect`, with a `decide` witness), the agreement
-of the quick-check case otherwise (`findPrev_own_region_partial`, `findNext_own_region_partial`),
-and the `decide`-checked counter-models outside the property's scope (no `MapConsistent`; region-
-unaligned scan end).  The top-level equivalences are stated below in comments; they are tied to
-the code by the exact differential of all three variants (fast / naive / public with the debug
-build's own `assert_eq!(fast, naive)`) and the independent naive-scan oracle of `checks/C22.py`.
+Status: **proved** (all five top-level statements, for a general `MapEnv`).
 
-Full statements (not proved here):
+Top-level theorems (this file; abstract-level lemmas in `Lemmas/SideSearch.lean`, `Lemmas/SideFind.lean`):
 
-* `findPrev_fast_eq_simple` : `s.ok → s.logRegion ≤ log2 gran → ByteMem m → MapConsistent env s m I →
-  alignDown a R ≥ a - limit + 1 ∨ load s m a = 0 → findPrevFastOld env s m a limit = findPrevSimple env s m a limit`
-  where `I` = regions `⌊(a-limit+1)/R⌋ … ⌊a/R⌋`, `MapConsistent` = (data mapped → metadata mapped) ∧
-  (data unmapped at `r` → every readable field at or below `r` in `I` is zero).
-* `findNext_fast_eq_simple` : same with `I` = regions `⌊a/R⌋ … ⌈(a+limit)/R⌉-1`, no side condition.
-  **NOW PROVED** (section "the forward search" below) together with `findNext_spec` (least region start
-  `≥ ⌊a⌋`, `< a + limit`, non-zero field, no unmapped data region up to it) and `findNext_public` (the debug
-  `assert_eq!` never fires).  Hypotheses: `env.ok` (granule = positive multiple of 8, mapped-ness per granule),
-  `2^logRegion ∣ gran`, `0 < s.start`, table start aligned to the field size, `logBits ≤ logRegion` for
-  sub-byte fields, `0 < limit`, `alignUp (a+limit) R < 2^64`, `MapConsistent env s m ⌊a/R⌋ ⌈(a+limit)/R⌉ true`
-  (Lemmas/SideFind.lean), and for fast = naive `mapped a ∨ R ≤ a` (the naive loop never asks whether
-  address 0 is mapped: `findNext_region0_witness`).
-* `findPrev_spec` : the result is the greatest region start `x` with `a - limit < x ≤ ⌊a⌋`, field ≠ 0 and
-  no unmapped data region in `(x, a]`.
-* `scan_fast_eq_naive`, `scan_spec` : for region-aligned `start ≤ end` and a 1-bit spec,
-  `scanFast s m start end = (regions of [start,end) with a non-zero field, ascending, once each)`
-  `= scanSimple … start end`.   **NOW PROVED** (section "the scans" below): `scanFast_eq_scanSpec`
-  (any `start ≤ end`), `scan_fast_eq_naive`, `scan_spec`, `scan_public_spec` (public entry, every width),
-  from `scanBytes_ok` / `scanBits_ok` (each range scanner reports exactly the set bits of its range,
-  ascending), `breakBitRange_partition` (C21) and `metaToData_bit` (Lemmas/SideSearch.lean).
+* scan — `scanFast_eq_scanSpec` (any `start ≤ end`), `scan_fast_eq_naive` (`scanSimple … = some (scanFast …)`),
+  `scan_spec` (membership + strictly ascending), `scan_public_spec` (public entry, every field width).
+  Hypotheses: `s.ok`, 1-bit spec (for the fast path), `ByteMem m`, region-aligned `start ≤ end < 2^64`, and for
+  the naive version in a debug build the visited region starts mapped.
+* forward search — `findNext_fast_eq_simple`, `findNext_spec`, `findNext_public`.
+* backward search (this tree's `findPrevFast`, whose quick check applies the limit) — `findPrev_fast_eq_simple`,
+  `findPrev_spec`, `findPrev_public`; for the pinned `findPrevFastOld`: `findPrevOld_fast_eq_simple` (with the
+  side condition `alignDown a R ≥ a - limit + 1 ∨ load s m a = 0`) and, on its complement,
+  `findPrev_own_region_defect` (fast ≠ naive, with a `decide` witness).
+
+Hypotheses of the search theorems (each set has an `example` with a non-trivial instance: an unmapped data
+chunk inside the searched range):
+  `env.ok` (granule = positive multiple of 8, mapped-ness per granule), `2^logRegion ∣ gran`, `s.ok`,
+  `ByteMem m`, table start aligned to the field size (`s.start % 2^(logBits-3) = 0`), `logBits ≤ logRegion` for
+  sub-byte fields (the code computes `log_bytes_in_region - log_num_of_bits` on `usize`), `0 < limit`,
+  `MapConsistent env s m lo hi dir` on the searched regions (`Lemmas/SideFind.lean`: a mapped data region has
+  mapped metadata; at and behind an unmapped data region every readable metadata bit is zero);
+  forward: `0 < s.start`, `alignUp (a+limit) R < 2^64`, and for fast = naive `mapped a ∨ R ≤ a` — the naive loop
+  never asks whether address 0 is mapped (`findNext_region0_witness` shows the model needs it);
+  backward: `0 < a`, `a + 1 < 2^64`, `metaAddr s a < 2^64 - 1` (the loops' caches start at `usize::MAX`).
+
+Proof structure: each range scanner / finder is shown equal to a search on global bit positions
+(`ScanOk`, `fwdSearch`, `bwdSearch`; uses `ctz_spec`, `hiBit_spec`, `findFirstBit_spec`, `findLastBit_spec`);
+`breakBitRange_partition` (C21) composes the ranges; `field_position` / `resData_found` / `metaToData_bit` map
+positions back to regions; under `MapConsistent` the position-level search is the region-level search
+(`fwd_fast_region`, `bwd_fast_region`), which is also what the naive loops compute
+(`findNextSimpleLoop_eq`, `findPrevSimpleLoop_eq`, `scanSimpleLoop_eq`).
+
+Also here: the exact characterisation of the one in-scope disagreement of the pinned code
+(`findPrev_own_region_defect`), the quick-check lemmas (`…_partial`, `…_fixed_…`), and `decide`-checked
+counter-models outside the property's scope (no `MapConsistent`; region-unaligned scan end).
+The theorems are additionally tied to the code by the exact differential of all three variants (fast / naive /
+public with the debug build's own `assert_eq!(fast, naive)`) and the independent naive-scan oracle of
+`checks/C22.py`.
 -/
 namespace Mmtk.SideMeta
 open Mmtk.Mem
@@ -1113,5 +1119,563 @@ example :
       show (if p / 8 = 1025 then 4 else 0).testBit (p % 8) = false
       have : p / 8 ≠ 1025 := by omega
       simp [this]
+
+/-! # the backward search: fast = naive = specification -/
+
+/-- one in-byte step of the backward search (`find_last_non_zero_bit::<u8>` on a mapped byte). -/
+theorem byte_bwd (env : MapEnv) (m : Mem) (c sb eb : Nat) (hmc : env.mapped c = true) (h1 : sb < eb) (h2 : eb ≤ 8) :
+    match findLastBit 8 (m c) sb eb with
+    | some bit => bit < 8 ∧ ∀ n, eb - sb ≤ n → n ≤ 8 * c + eb → bwdSearch env m n (8 * c + eb) = .found (8 * c + bit)
+    | none => bwdSearch env m (eb - sb) (8 * c + eb) = .notFound := by
+  have hspec := findLastBit_spec 8 (m c) sb eb (Nat.le_of_lt h1) h2 (by omega)
+  cases h : findLastBit 8 (m c) sb eb with
+  | some bit =>
+    rw [h] at hspec
+    obtain ⟨a1, a2, a3, a4⟩ := hspec
+    refine ⟨by omega, fun n hn hn2 => ?_⟩
+    apply bwdSearch_hit env m n _ _ hn2 (by omega) (by omega)
+    · intro p p1 p2
+      have e1 : p / 8 = c := by omega
+      refine ⟨by rw [e1]; exact hmc, ?_⟩
+      unfold bitAt; rw [e1]; exact a4 (p % 8) (by omega) (by omega)
+    · have e1 : (8 * c + bit) / 8 = c := by omega
+      rw [e1]; exact hmc
+    · rw [bitAt_mk m c bit (by omega)]; exact a3
+  | none =>
+    rw [h] at hspec
+    apply bwdSearch_clear _ _ _ _ (by omega)
+    intro p p1 p2
+    have e1 : p / 8 = c := by omega
+    refine ⟨by rw [e1]; exact hmc, ?_⟩
+    unfold bitAt; rw [e1]; exact hspec (p % 8) (by omega) (by omega)
+
+/-- one word step of the backward search (`find_last_non_zero_bit::<usize>` on an aligned, mapped word). -/
+theorem word_bwd (env : MapEnv) (henv : env.ok) (m : Mem) (hm : ByteMem m) (c : Nat) (hc8 : c % 8 = 0)
+    (hmc : env.mapped c = true) :
+    (readLE m c 8 = 0 → bwdSearch env m 64 (8 * c + 64) = .notFound) ∧
+    (readLE m c 8 ≠ 0 → ∃ bit, findLastBit 64 (readLE m c 8) 0 64 = some bit ∧ bit < 64 ∧
+      ∀ n, 64 ≤ n → n ≤ 8 * c + 64 → bwdSearch env m n (8 * c + 64) = .found (8 * c + bit)) := by
+  have hmap : ∀ p, 8 * c ≤ p → p < 8 * c + 64 → env.mapped (p / 8) = true := by
+    intro p p1 p2
+    have : p / 8 = c + (p / 8 - c) := by omega
+    rw [this, word_block env henv c _ hc8 (by omega)]; exact hmc
+  have hspec := findLastBit_spec 64 (readLE m c 8) 0 64 (by omega) (by omega) (by omega)
+  constructor
+  · intro h0
+    apply bwdSearch_clear _ _ _ _ (by omega)
+    intro p p1 p2
+    refine ⟨hmap p (by omega) p2, ?_⟩
+    have := testBit_readLE8 m hm c (p - 8 * c) (by omega)
+    have e : 8 * c + (p - 8 * c) = p := by omega
+    rw [e, h0] at this
+    simpa using this.symm
+  · intro hne
+    cases h : findLastBit 64 (readLE m c 8) 0 64 with
+    | none =>
+      rw [h] at hspec
+      exfalso; apply hne
+      apply Nat.eq_of_testBit_eq
+      intro i
+      rw [Nat.zero_testBit]
+      by_cases hi : i < 64
+      · exact hspec i (by omega) hi
+      · exact Nat.testBit_lt_two_pow (Nat.lt_of_lt_of_le (readLE8_lt m hm c) (Nat.pow_le_pow_right (by omega) (by omega)))
+    | some bit =>
+      rw [h] at hspec
+      obtain ⟨a1, a2, a3, a4⟩ := hspec
+      refine ⟨bit, rfl, a2, fun n hn hn2 => ?_⟩
+      apply bwdSearch_hit env m n _ _ hn2 (by omega) (by omega)
+      · intro p p1 p2
+        refine ⟨hmap p (by omega) p2, ?_⟩
+        have := testBit_readLE8 m hm c (p - 8 * c) (by omega)
+        have e : 8 * c + (p - 8 * c) = p := by omega
+        rw [e] at this
+        rw [← this]; exact a4 _ (by omega) (by omega)
+      · exact hmap _ (by omega) (by omega)
+      · rw [← testBit_readLE8 m hm c bit a2]; exact a3
+
+/-- the mapped-chunk check of the backward loops. -/
+theorem chkBwd (env : MapEnv) (henv : env.ok) (cur grain : Nat)
+    (hc : ∀ x, grain ≤ x → x ≤ cur → env.mapped x = true) :
+    ((if cur < grain then (if env.mapped cur then some (alignDown cur env.gran) else none) else some grain) = none ∧
+      env.mapped cur = false) ∨
+    (∃ g', (if cur < grain then (if env.mapped cur then some (alignDown cur env.gran) else none) else some grain) = some g' ∧
+      env.mapped cur = true ∧ ∀ x, g' ≤ x → x ≤ cur → env.mapped x = true) := by
+  by_cases hg : cur < grain
+  · by_cases hmp : env.mapped cur = true
+    · refine Or.inr ⟨alignDown cur env.gran, by simp only [hg, hmp, if_true], hmp, fun x a b => ?_⟩
+      rw [alignDown_block env henv _ x a b, hmp]
+    · have hmp' : env.mapped cur = false := by simpa using hmp
+      exact Or.inl ⟨by simp [hg, hmp'], hmp'⟩
+  · exact Or.inr ⟨grain, by simp only [hg, if_false], hc _ (by omega) (Nat.le_refl _), hc⟩
+
+/-- **`find_last_non_zero_bit_in_metadata_bytes`** is the position-level backward search. -/
+theorem findLastInBytesLoop_eq (env : MapEnv) (henv : env.ok) (m : Mem) (hm : ByteMem m) (S : Nat) :
+    ∀ fuel cur grain, S ≤ cur → cur - S ≤ fuel →
+    (∀ x, grain ≤ x → x < cur → env.mapped x = true) →
+    findLastInBytesLoop env m S fuel cur grain = (bwdSearch env m (8 * (cur - S)) (8 * cur)).toFind := by
+  intro fuel
+  induction fuel with
+  | zero =>
+    intro cur grain h1 h2 _
+    have : cur - S = 0 := by omega
+    simp [findLastInBytesLoop, this, bwdSearch, PosRes.toFind]
+  | succ f ih =>
+    intro cur grain h1 h2 hc
+    simp only [findLastInBytesLoop]
+    by_cases hlt : cur > S
+    · simp only [hlt, not_true_eq_false, if_false]
+      by_cases hstep : cur % 8 = 0 ∧ cur - 8 ≥ S ∧ cur ≥ 8
+      · simp only [hstep, and_self, if_true]
+        obtain ⟨c, rfl⟩ : ∃ c, cur = c + 8 := ⟨cur - 8, by omega⟩
+        have hc8 : c % 8 = 0 := by omega
+        have hcS : S ≤ c := by omega
+        have esplit : 8 * (c + 8 - S) = 64 + 8 * (c - S) := by omega
+        have h64 : 64 ≤ 8 * (c + 8 - S) := by omega
+        have hle : 8 * (c + 8 - S) ≤ 8 * c + 64 := by omega
+        have hfuel : c - S ≤ f := by omega
+        have e8 : 8 * (c + 8) = 8 * c + 64 := by omega
+        have e8' : 8 * c + 64 - 64 = 8 * c := by omega
+        simp only [Nat.add_sub_cancel]
+        rcases chkBwd env henv c grain (fun x a b => hc x a (by omega)) with ⟨e, hmp⟩ | ⟨g', e, hmp, hv⟩
+        · rw [e]
+          have hq : (8 * c + 64 - 1) / 8 = c + 7 := by omega
+          rw [e8, bwdSearch_unm env m _ _ (8 * c + 64 - 1) hle (by omega) (by omega) (fun p a b => by omega)
+            (by rw [hq, word_block env henv c 7 hc8 (by omega)]; exact hmp)]
+          rfl
+        · rw [e]
+          obtain ⟨w0, w1⟩ := word_bwd env henv m hm c hc8 hmp
+          by_cases hv0 : readLE m c 8 = 0
+          · simp only [hv0, ne_eq, not_true_eq_false, if_false]
+            rw [ih c g' hcS hfuel (fun x a b => hv x a (Nat.le_of_lt b)), esplit, e8, bwdSearch_append, w0 hv0]
+            simp only [PosRes.orElse, e8']
+          · obtain ⟨bit, b1, b2, b3⟩ := w1 hv0
+            simp only [hv0, ne_eq, not_false_eq_true, if_true, b1]
+            rw [e8, b3 _ h64 hle]
+            simp only [PosRes.toFind, Nat.shiftRight_eq_div_pow, Nat.shiftLeft_eq]
+            have e1 : (8 * c + bit) / 8 = c + bit / 2 ^ 3 := by omega
+            have e2 : (8 * c + bit) % 8 = bit - bit / 2 ^ 3 * 2 ^ 3 := by omega
+            rw [e1, e2]
+      · have hs1 : (if cur % 8 = 0 ∧ cur - 8 ≥ S ∧ cur ≥ 8 then 8 else 1) = 1 := by simp only [hstep, if_false]
+        simp only [hs1, Nat.reduceEqDiff, if_false]
+        obtain ⟨c, rfl⟩ : ∃ c, cur = c + 1 := ⟨cur - 1, by omega⟩
+        have hcS : S ≤ c := by omega
+        have esplit : 8 * (c + 1 - S) = 8 + 8 * (c - S) := by omega
+        have hle : 8 * (c + 1 - S) ≤ 8 * c + 8 := by omega
+        have h8 : 8 ≤ 8 * (c + 1 - S) := by omega
+        have hfuel : c - S ≤ f := by omega
+        have e8 : 8 * (c + 1) = 8 * c + 8 := by omega
+        have e8' : 8 * c + 8 - 8 = 8 * c := by omega
+        simp only [Nat.add_sub_cancel]
+        rcases chkBwd env henv c grain (fun x a b => hc x a (by omega)) with ⟨e, hmp⟩ | ⟨g', e, hmp, hv⟩
+        · rw [e]
+          have hq : (8 * c + 8 - 1) / 8 = c := by omega
+          rw [e8, bwdSearch_unm env m _ _ (8 * c + 8 - 1) hle (by omega) (by omega) (fun p a b => by omega)
+            (by rw [hq]; exact hmp)]
+          rfl
+        · rw [e]
+          have hb := byte_bwd env m c 0 8 hmp (by omega) (by omega)
+          cases hfb : findLastBit 8 (m c) 0 8 with
+          | some bit =>
+            rw [hfb] at hb
+            obtain ⟨b1, b2⟩ := hb
+            rw [e8, b2 _ (by omega) hle]
+            simp only [PosRes.toFind]
+            have e1 : (8 * c + bit) / 8 = c := by omega
+            have e2 : (8 * c + bit) % 8 = bit := by omega
+            rw [e1, e2]
+          | none =>
+            rw [hfb] at hb
+            simp only [Nat.sub_zero] at hb
+            show findLastInBytesLoop env m S f c g' = _
+            rw [ih c g' hcS hfuel (fun x a b => hv x a (Nat.le_of_lt b)), esplit, e8, bwdSearch_append, hb]
+            simp only [PosRes.orElse, e8']
+    · have : cur - S = 0 := by omega
+      simp [hlt, this, bwdSearch, PosRes.toFind]
+
+/-- **`find_last_non_zero_bit_in_metadata_bits`** is the position-level backward search. -/
+theorem findLastInBits_eq (env : MapEnv) (m : Mem) (a sb eb : Nat) (h1 : sb < eb) (h2 : eb ≤ 8) :
+    findLastInBits env m a sb eb = (bwdSearch env m (eb - sb) (8 * a + eb)).toFind := by
+  unfold findLastInBits
+  by_cases hmp : env.mapped a = true
+  · simp only [hmp, Bool.not_true, Bool.false_eq_true, if_false]
+    have hb := byte_bwd env m a sb eb hmp h1 h2
+    cases hfb : findLastBit 8 (m a) sb eb with
+    | some bit =>
+      rw [hfb] at hb
+      obtain ⟨b1, b2⟩ := hb
+      rw [b2 _ (Nat.le_refl _) (by omega)]
+      simp only [PosRes.toFind]
+      have e1 : (8 * a + bit) / 8 = a := by omega
+      have e2 : (8 * a + bit) % 8 = bit := by omega
+      rw [e1, e2]
+    | none =>
+      rw [hfb] at hb
+      rw [hb]; rfl
+  · have hmp' : env.mapped a = false := by simpa using hmp
+    simp only [hmp', Bool.not_false, if_true]
+    have hq : (8 * a + eb - 1) / 8 = a := by omega
+    rw [bwdSearch_unm env m _ _ (8 * a + eb - 1) (by omega) (by omega) (by omega) (fun p x y => by omega) (by rw [hq]; exact hmp')]
+    rfl
+
+
+/-- arithmetic of the bounds of the backward search (`S = a - limit + 1`). -/
+theorem prev_bounds (a limit lr : Nat) (hlim : 0 < limit) (ha0 : 0 < a) :
+    alignDown a (2 ^ lr) = a / 2 ^ lr * 2 ^ lr ∧
+    a - limit + 1 ≤ a ∧
+    (a - limit + 1) / 2 ^ lr ≤ a / 2 ^ lr ∧
+    (a - limit + 1) / 2 ^ lr ≤ (a - limit + 1 + 2 ^ lr - 1) / 2 ^ lr ∧
+    (a - limit + 1 + 2 ^ lr - 1) / 2 ^ lr ≤ (a - limit + 1) / 2 ^ lr + 1 ∧
+    (∀ q, q * 2 ^ lr ≥ a - limit + 1 ↔ (a - limit + 1 + 2 ^ lr - 1) / 2 ^ lr ≤ q) ∧
+    a / 2 ^ lr * 2 ^ lr ≤ a ∧ a < (a / 2 ^ lr + 1) * 2 ^ lr ∧
+    a / 2 ^ lr + 1 - (a - limit + 1 + 2 ^ lr - 1) / 2 ^ lr ≤ limit / 2 ^ lr + 2 ∧
+    1 ≤ (a - limit + 1 + 2 ^ lr - 1) / 2 ^ lr := by
+  have hR := Nat.two_pow_pos lr
+  generalize 2 ^ lr = R at *
+  have hS : a - limit + 1 ≤ a := by omega
+  have hS1 : 1 ≤ a - limit + 1 := by omega
+  have hSl : a < a - limit + 1 + limit := by omega
+  generalize a - limit + 1 = S at *
+  have f1 : a / R * R ≤ a := Nat.div_mul_le_self a R
+  have f2 : a < a / R * R + R := Nat.lt_div_mul_add hR
+  have f3 : S / R * R ≤ S := Nat.div_mul_le_self _ R
+  have f4 : S < S / R * R + R := Nat.lt_div_mul_add hR
+  have f5 : (S + R - 1) / R * R ≤ S + R - 1 := Nat.div_mul_le_self _ R
+  have f6 : S + R - 1 < (S + R - 1) / R * R + R := Nat.lt_div_mul_add hR
+  have f7 : limit / R * R ≤ limit := Nat.div_mul_le_self _ R
+  have f8 : limit < limit / R * R + R := Nat.lt_div_mul_add hR
+  have g1 : S / R ≤ a / R := Nat.div_le_div_right hS
+  have g2 : S / R ≤ (S + R - 1) / R := Nat.div_le_div_right (by omega)
+  have g3 : (S + R - 1) / R ≤ S / R + 1 := by
+    apply Nat.le_of_lt_succ
+    apply (Nat.div_lt_iff_lt_mul hR).2
+    rw [Nat.succ_mul, Nat.add_mul, Nat.one_mul]; omega
+  have g4 : 1 ≤ (S + R - 1) / R := (Nat.le_div_iff_mul_le hR).2 (by omega)
+  have g5 : (a / R + 1) * R = a / R * R + R := by rw [Nat.add_mul, Nat.one_mul]
+  refine ⟨alignDown_eq_div a R, hS, g1, g2, g3, ?_, f1, by omega, ?_, g4⟩
+  · intro q
+    generalize (S + R - 1) / R = t at *
+    constructor
+    · intro h
+      apply Nat.le_of_not_lt
+      intro hlt
+      have := Nat.mul_le_mul_right R (Nat.succ_le_of_lt hlt)
+      rw [Nat.succ_mul] at this
+      omega
+    · intro h
+      have := Nat.mul_le_mul_right R h
+      omega
+  · generalize a / R = ra at *
+    generalize (S + R - 1) / R = t at *
+    generalize limit / R = L at *
+    by_cases ht : t ≤ ra
+    · have e : (ra - t) * R = ra * R - t * R := Nat.sub_mul ..
+      have : (ra - t) * R ≤ L * R + R := by
+        have := Nat.mul_le_mul_right R ht
+        omega
+      have e2 : (L + 1) * R = L * R + R := by rw [Nat.add_mul, Nat.one_mul]
+      rw [← e2] at this
+      have := Nat.le_of_mul_le_mul_right this hR
+      omega
+    · omega
+
+/-- the region-level effect of the final range filter of `find_prev_non_zero_value_fast`: the fast
+version also looks at the region cut by `S = a - limit + 1` and then discards it. -/
+theorem regionBwd_filter (env : MapEnv) (s : Spec) (m : Mem) (rs rs' ra S a : Nat)
+    (h1 : rs ≤ rs') (h2 : rs' ≤ rs + 1) (h3 : rs ≤ ra) (hrs' : 1 ≤ rs')
+    (h5 : ∀ q, q * 2 ^ s.logRegion ≥ S ↔ rs' ≤ q) (h6 : ra * 2 ^ s.logRegion ≤ a)
+    (hz : absArr m s ra = 0) (hmp : env.mapped (ra * 2 ^ s.logRegion) = true) :
+    ((regionBwd env s m (ra - rs) ra).map fun x => alignDown x (2 ^ s.logRegion)).filter
+      (fun x => decide (x ≥ S) && decide (x < a)) = regionBwd env s m (ra + 1 - rs') (ra + 1) := by
+  have hR := Nat.two_pow_pos s.logRegion
+  have hiffL := regionBwd_some_iff env s m (ra - rs) ra
+  have hiffR := regionBwd_some_iff env s m (ra + 1 - rs') (ra + 1)
+  cases hL : regionBwd env s m (ra - rs) ra with
+  | none =>
+    symm
+    apply Option.eq_none_iff_forall_ne_some.2
+    intro x hx
+    obtain ⟨r', a1, a2, a3, a4, a5, a6⟩ := (hiffR x (by omega)).1 hx
+    have hne : r' ≠ ra := by intro e; rw [e] at a4; exact a4 hz
+    have : regionBwd env s m (ra - rs) ra = some x :=
+      (hiffL x (by omega)).2 ⟨r', by omega, by omega, a3, a4, fun q q1 q2 => a5 q q1 (by omega), fun q q1 q2 => a6 q q1 (by omega)⟩
+    rw [hL] at this; cases this
+  | some y =>
+    obtain ⟨r', a1, a2, a3, a4, a5, a6⟩ := (hiffL y (by omega)).1 hL
+    subst a3
+    have hlt : r' * 2 ^ s.logRegion < a := by
+      have := Nat.mul_lt_mul_of_pos_right a2 hR
+      omega
+    by_cases hge : rs' ≤ r'
+    · have hS : r' * 2 ^ s.logRegion ≥ S := (h5 r').2 hge
+      have : regionBwd env s m (ra + 1 - rs') (ra + 1) = some (r' * 2 ^ s.logRegion) :=
+        (hiffR _ (by omega)).2 ⟨r', by omega, by omega, rfl, a4, fun q q1 q2 => by
+          by_cases e : q = ra
+          · rw [e]; exact hz
+          · exact a5 q q1 (by omega), fun q q1 q2 => by
+          by_cases e : q = ra
+          · rw [e]; exact hmp
+          · exact a6 q q1 (by omega)⟩
+      rw [this]
+      simp [alignDown_mul, hS, hlt]
+    · have hS : ¬ r' * 2 ^ s.logRegion ≥ S := fun h => hge ((h5 r').1 h)
+      have hnone : regionBwd env s m (ra + 1 - rs') (ra + 1) = none := by
+        apply Option.eq_none_iff_forall_ne_some.2
+        intro x hx
+        obtain ⟨r'', c1, c2, c3, c4, c5, c6⟩ := (hiffR x (by omega)).1 hx
+        by_cases e : r'' = ra
+        · rw [e] at c4; exact c4 hz
+        · exact c4 (a5 r'' (by omega) (by omega))
+      rw [hnone]
+      simp [alignDown_mul, hS]
+
+
+/-- **the naive backward search is the region-level search** over the regions `⌊a/R⌋` down to
+`⌈(a-limit+1)/R⌉` (those whose start is inside the limit). -/
+theorem findPrevSimple_eq_region (env : MapEnv) (henv : env.ok) (s : Spec) (hs : s.ok)
+    (m : Mem) (a limit : Nat) (hlim : 0 < limit) (ha0 : 0 < a) (ha1 : a + 1 < 2 ^ 64) :
+    findPrevSimple env s m a limit =
+      regionBwd env s m (a / 2 ^ s.logRegion + 1 - (a - limit + 1 + 2 ^ s.logRegion - 1) / 2 ^ s.logRegion)
+        (a / 2 ^ s.logRegion + 1) := by
+  obtain ⟨p1, p2, p3, p4, p4', p5, p6, p6', p7, p9⟩ := prev_bounds a limit s.logRegion hlim ha0
+  unfold findPrevSimple
+  simp only
+  rw [p1]
+  generalize a / 2 ^ s.logRegion = ra at *
+  generalize (a - limit + 1 + 2 ^ s.logRegion - 1) / 2 ^ s.logRegion = t at *
+  generalize (a - limit + 1) / 2 ^ s.logRegion = rs at *
+  apply findPrevSimpleLoop_eq env henv s hs m _ (ra + 1 - t) _ ra (2 ^ 64 - 1) p7 (by omega) (by omega)
+  · intro q q1 q2; exact (p5 q).2 (by omega)
+  · intro h; have := (p5 _).1 h; omega
+  · intro x x1 x2; omega
+
+/-- **the fast backward search is the region-level search** over the same regions. -/
+theorem findPrevFast_eq_region (env : MapEnv) (henv : env.ok) (s : Spec) (hs : s.ok)
+    (hal : s.start % 2 ^ (s.logBits - 3) = 0) (hlr : s.logBits < 3 → s.logBits ≤ s.logRegion)
+    (hgran : 2 ^ s.logRegion ∣ env.gran) (m : Mem) (hm : ByteMem m) (a limit : Nat) (hlim : 0 < limit)
+    (ha0 : 0 < a) (ha1 : a + 1 < 2 ^ 64) (hmeta : metaAddr s a < 2 ^ 64 - 1)
+    (hmc : MapConsistent env s m ((a - limit + 1) / 2 ^ s.logRegion) (a / 2 ^ s.logRegion + 1) false) :
+    findPrevFast env s m a limit =
+      regionBwd env s m (a / 2 ^ s.logRegion + 1 - (a - limit + 1 + 2 ^ s.logRegion - 1) / 2 ^ s.logRegion)
+        (a / 2 ^ s.logRegion + 1) := by
+  have hR := Nat.two_pow_pos s.logRegion
+  obtain ⟨p1, p2, p3, p4, p4', p5, p6, p6', p7, p9⟩ := prev_bounds a limit s.logRegion hlim ha0
+  have hmap0 := region_block env henv s.logRegion hgran a
+  have hra : a >>> s.logRegion = a / 2 ^ s.logRegion := Nat.shiftRight_eq_div_pow ..
+  have hrs : (a - limit + 1) >>> s.logRegion = (a - limit + 1) / 2 ^ s.logRegion := Nat.shiftRight_eq_div_pow ..
+  have ha64 : a < 2 ^ 64 := by omega
+  have hlabs : load s m a = absArr m s (a / 2 ^ s.logRegion) := by rw [load_eq_absArr s hs m a ha64, hra]
+  obtain ⟨e1, e2, c1, c2, ho⟩ := bulk_interval s hs (a - limit + 1) (a - (a - limit + 1)) (by omega)
+  have eE : a - limit + 1 + (a - (a - limit + 1)) = a := by omega
+  rw [eE] at e2 c2 ho
+  rw [hrs] at e1
+  rw [hra] at e2
+  unfold findPrevFast
+  generalize a / 2 ^ s.logRegion = ra at *
+  generalize (a - limit + 1 + 2 ^ s.logRegion - 1) / 2 ^ s.logRegion = t at *
+  generalize (a - limit + 1) / 2 ^ s.logRegion = rs at *
+  generalize hS : a - limit + 1 = S at *
+  by_cases hmapa : env.mapped a = true
+  · simp only [hmapa, Bool.not_true, Bool.false_eq_true, if_false]
+    rw [hmapa] at hmap0
+    by_cases hload : load s m a ≠ 0
+    · rw [if_pos hload, p1]
+      rw [hlabs] at hload
+      by_cases hin : ra * 2 ^ s.logRegion ≥ S
+      · have := (p5 ra).1 hin
+        obtain ⟨k, hk⟩ : ∃ k, ra + 1 - t = k + 1 := ⟨ra - t, by omega⟩
+        rw [if_pos hin, hk]
+        simp only [regionBwd, Nat.add_sub_cancel, hmap0]
+        simp [hload]
+      · have : ¬ t ≤ ra := fun h => hin ((p5 ra).2 h)
+        have hk : ra + 1 - t = 0 := by omega
+        rw [if_neg hin, hk]; rfl
+    · rw [if_neg hload]
+      have hz : absArr m s ra = 0 := by rw [← hlabs]; simpa using hload
+      have ht := breakBitRange_partition _ _ _ _ c1 c2 ho
+      rw [e1, e2] at ht
+      rw [breakBitRange_backwards, findVisit_tiles_bwd env s m _ (fieldBase s ra) ?_ ht (Nat.le_refl _)]
+      · have e : ra - (ra - rs) = rs := by omega
+        rw [fieldBase_sub s rs ra p3,
+          bwd_fast_region env s hs hal hlr m hm (ra - rs) ra (by omega) (by omega)
+            (by rw [e]; exact hmc.mono (Nat.le_refl _) (by omega))]
+        exact regionBwd_filter env s m rs t ra S a p4 p4' p3 p9 p5 p6 hz hmap0
+      · intro r hw hhi
+        have hfb : fieldBase s ra < 8 * (2 ^ 64 - 1) := by omega
+        cases r with
+        | bytes st en =>
+          simp only [BBR.lo, BBR.hi, BBR.wf] at hw hhi ⊢
+          have e8 : 8 * en - 8 * st = 8 * (en - st) := by omega
+          rw [e8]
+          exact findLastInBytesLoop_eq env henv m hm st _ en (2 ^ 64 - 1) (Nat.le_of_lt hw) (by omega) (fun x a b => by omega)
+        | bits ad bs be =>
+          simp only [BBR.lo, BBR.hi, BBR.wf] at hw hhi ⊢
+          have e8 : 8 * ad + be - (8 * ad + bs) = be - bs := by omega
+          rw [e8]
+          exact findLastInBits_eq env m ad bs be hw.1 hw.2
+  · have hmapa' : env.mapped a = false := by simpa using hmapa
+    rw [hmapa'] at hmap0
+    simp only [hmapa', Bool.not_false, if_true]
+    by_cases hk0 : ra + 1 - t = 0
+    · rw [hk0]; rfl
+    · obtain ⟨k, hk⟩ : ∃ k, ra + 1 - t = k + 1 := ⟨ra - t, by omega⟩
+      rw [hk]
+      simp only [regionBwd, Nat.add_sub_cancel, hmap0, Bool.not_false, if_true]
+
+
+/-- **C22 (backward search, fast = naive)** for this tree's `find_prev_non_zero_value_fast` (whose quick
+check applies the search limit; the pinned version is `findPrev_own_region_defect`): under
+`MapConsistent` on the regions `⌊(a-limit+1)/R⌋ … ⌊a/R⌋` (searched downwards) the word-at-a-time search
+and the region-by-region search return the same. Side conditions as for the forward search; `0 < a` and
+`a + 1 < 2^64` keep `a - limit + 1` and the loops' initial cache (`usize::MAX`) meaningful, `hmeta` says
+the metadata of `a` does not sit at the very last address. -/
+theorem findPrev_fast_eq_simple (env : MapEnv) (henv : env.ok) (s : Spec) (hs : s.ok)
+    (hal : s.start % 2 ^ (s.logBits - 3) = 0) (hlr : s.logBits < 3 → s.logBits ≤ s.logRegion)
+    (hgran : 2 ^ s.logRegion ∣ env.gran) (m : Mem) (hm : ByteMem m) (a limit : Nat) (hlim : 0 < limit)
+    (ha0 : 0 < a) (ha1 : a + 1 < 2 ^ 64) (hmeta : metaAddr s a < 2 ^ 64 - 1)
+    (hmc : MapConsistent env s m ((a - limit + 1) / 2 ^ s.logRegion) (a / 2 ^ s.logRegion + 1) false) :
+    findPrevFast env s m a limit = findPrevSimple env s m a limit := by
+  rw [findPrevFast_eq_region env henv s hs hal hlr hgran m hm a limit hlim ha0 ha1 hmeta hmc,
+    findPrevSimple_eq_region env henv s hs m a limit hlim ha0 ha1]
+
+/-- the public entry never trips its `assert_eq!(fast, naive)`. -/
+theorem findPrev_public (debug : Bool) (env : MapEnv) (henv : env.ok) (s : Spec) (hs : s.ok)
+    (hal : s.start % 2 ^ (s.logBits - 3) = 0) (hlr : s.logBits < 3 → s.logBits ≤ s.logRegion)
+    (hgran : 2 ^ s.logRegion ∣ env.gran) (m : Mem) (hm : ByteMem m) (a limit : Nat) (hlim : 0 < limit)
+    (ha0 : 0 < a) (ha1 : a + 1 < 2 ^ 64) (hmeta : metaAddr s a < 2 ^ 64 - 1)
+    (hmc : MapConsistent env s m ((a - limit + 1) / 2 ^ s.logRegion) (a / 2 ^ s.logRegion + 1) false) :
+    findPrev debug env s m a limit = some (findPrevFast env s m a limit) := by
+  have h := findPrev_fast_eq_simple env henv s hs hal hlr hgran m hm a limit hlim ha0 ha1 hmeta hmc
+  have hl : (limit == 0) = false := by simp; omega
+  unfold findPrev
+  simp [hl, h]
+
+/-- **C22 (backward search, specification)**: the result is the greatest region start `x` with
+`a - limit < x ≤ a` and a non-zero field, provided no data region from `x` up to `⌊a⌋` is unmapped;
+otherwise nothing. -/
+theorem findPrev_spec (env : MapEnv) (henv : env.ok) (s : Spec) (hs : s.ok)
+    (hal : s.start % 2 ^ (s.logBits - 3) = 0) (hlr : s.logBits < 3 → s.logBits ≤ s.logRegion)
+    (hgran : 2 ^ s.logRegion ∣ env.gran) (m : Mem) (hm : ByteMem m) (a limit : Nat) (hlim : 0 < limit)
+    (ha0 : 0 < a) (ha1 : a + 1 < 2 ^ 64) (hmeta : metaAddr s a < 2 ^ 64 - 1)
+    (hmc : MapConsistent env s m ((a - limit + 1) / 2 ^ s.logRegion) (a / 2 ^ s.logRegion + 1) false)
+    (x : Nat) :
+    findPrevFast env s m a limit = some x ↔
+      (x % 2 ^ s.logRegion = 0 ∧ a - limit + 1 ≤ x ∧ x ≤ a ∧ load s m x ≠ 0 ∧
+        (∀ y, x < y → y ≤ a → y % 2 ^ s.logRegion = 0 → load s m y = 0) ∧
+        (∀ y, x ≤ y → y ≤ a → y % 2 ^ s.logRegion = 0 → env.mapped y = true)) := by
+  have hR := Nat.two_pow_pos s.logRegion
+  obtain ⟨p1, p2, p3, p4, p4', p5, p6, p6', p7, p9⟩ := prev_bounds a limit s.logRegion hlim ha0
+  rw [findPrevFast_eq_region env henv s hs hal hlr hgran m hm a limit hlim ha0 ha1 hmeta hmc,
+    regionBwd_some_iff env s m _ _ x (by omega)]
+  generalize a / 2 ^ s.logRegion = ra at *
+  generalize (a - limit + 1 + 2 ^ s.logRegion - 1) / 2 ^ s.logRegion = t at *
+  generalize (a - limit + 1) / 2 ^ s.logRegion = rs at *
+  have hle : ∀ q, q * 2 ^ s.logRegion ≤ a → q ≤ ra := by
+    intro q hq
+    have : q * 2 ^ s.logRegion < (ra + 1) * 2 ^ s.logRegion := by omega
+    have := Nat.lt_of_mul_lt_mul_right this
+    omega
+  have hld : ∀ q, q ≤ ra → load s m (q * 2 ^ s.logRegion) = absArr m s q := fun q hq =>
+    load_region s hs m q (by have := Nat.mul_le_mul_right (2 ^ s.logRegion) hq; omega)
+  constructor
+  · rintro ⟨r', q1, q2, rfl, q4, q5, q6⟩
+    have hr' : r' ≤ ra := by omega
+    have hxa : r' * 2 ^ s.logRegion ≤ a := by have := Nat.mul_le_mul_right (2 ^ s.logRegion) hr'; omega
+    refine ⟨Nat.mul_mod_left .., (p5 r').2 (by omega), hxa, by rw [hld r' hr']; exact q4, ?_, ?_⟩
+    · intro y y1 y2 y3
+      obtain ⟨q, rfl⟩ : ∃ q, y = q * 2 ^ s.logRegion := ⟨_, (aligned_eq y s.logRegion y3).symm⟩
+      have c1 := Nat.lt_of_mul_lt_mul_right y1
+      have c2 := hle q y2
+      rw [hld q c2]; exact q5 q c1 (by omega)
+    · intro y y1 y2 y3
+      obtain ⟨q, rfl⟩ : ∃ q, y = q * 2 ^ s.logRegion := ⟨_, (aligned_eq y s.logRegion y3).symm⟩
+      exact q6 q (Nat.le_of_mul_le_mul_right y1 hR) (by have := hle q y2; omega)
+  · rintro ⟨x1, x2, x3, x4, x5, x6⟩
+    obtain ⟨r', rfl⟩ : ∃ q, x = q * 2 ^ s.logRegion := ⟨_, (aligned_eq x s.logRegion x1).symm⟩
+    have c1 := (p5 r').1 x2
+    have c2 := hle r' x3
+    refine ⟨r', by omega, by omega, rfl, by rw [← hld r' c2]; exact x4, fun q d1 d2 => ?_, fun q d1 d2 => ?_⟩
+    · have hq : q ≤ ra := by omega
+      have hqa : q * 2 ^ s.logRegion ≤ a := by have := Nat.mul_le_mul_right (2 ^ s.logRegion) hq; omega
+      rw [← hld q hq]
+      exact x5 _ (Nat.mul_lt_mul_of_pos_right d1 hR) hqa (Nat.mul_mod_left ..)
+    · have hq : q ≤ ra := by omega
+      have hqa : q * 2 ^ s.logRegion ≤ a := by have := Nat.mul_le_mul_right (2 ^ s.logRegion) hq; omega
+      exact x6 _ (Nat.mul_le_mul_right _ d1) hqa (Nat.mul_mod_left ..)
+
+/-- the hypotheses of the backward theorems are satisfiable by a non-trivial state: data `[128, 512)`
+mapped, `[0,128)` not, metadata (from 1024) mapped, the bit of region 20 (address 160) set; searching back
+from 300 over 250 bytes reaches the unmapped chunk below region 16. -/
+example :
+    let env : MapEnv := { mapped := fun x => (decide (128 ≤ x) && decide (x < 512)) || decide (1024 ≤ x), gran := 64 }
+    let s : Spec := { start := 1024, logBits := 0, logRegion := 3 }
+    let m : Mem := fun x => if x = 1026 then 16 else 0
+    env.ok ∧ s.ok ∧ s.start % 2 ^ (s.logBits - 3) = 0 ∧ (s.logBits < 3 → s.logBits ≤ s.logRegion) ∧
+    2 ^ s.logRegion ∣ env.gran ∧ ByteMem m ∧ metaAddr s 300 < 2 ^ 64 - 1 ∧
+    MapConsistent env s m ((300 - 250 + 1) / 2 ^ s.logRegion) (300 / 2 ^ s.logRegion + 1) false ∧
+    findPrevFast env s m 300 250 = some 160 ∧ findPrevFast env s m 150 140 = none ∧
+    findPrevSimple env s m 300 250 = some 160 := by
+  intro env s m
+  refine ⟨⟨by decide, by decide, ?_⟩, by decide, by decide, by decide, by decide, ?_, by decide, ?_, by decide, by decide, by decide⟩
+  · intro x y h
+    show ((decide (128 ≤ x) && decide (x < 512)) || decide (1024 ≤ x)) = ((decide (128 ≤ y) && decide (y < 512)) || decide (1024 ≤ y))
+    have h' : x / 64 = y / 64 := h
+    have e1 : (128 ≤ x) ↔ (128 ≤ y) := by omega
+    have e2 : (1024 ≤ x) ↔ (1024 ≤ y) := by omega
+    have e3 : (x < 512) ↔ (y < 512) := by omega
+    simp [e1, e2, e3]
+  · intro x; show (if x = 1026 then 16 else 0) < 256; split <;> omega
+  · have hr : ((300 - 250 + 1) / 2 ^ s.logRegion) = 6 := by decide
+    have hr1 : (300 / 2 ^ s.logRegion + 1) = 38 := by decide
+    rw [hr, hr1]
+    have hfb : ∀ r, fieldBase s r = 8192 + r := by intro r; show 8 * 1024 + r * 2 ^ 0 = _; omega
+    constructor
+    · intro r _ _ _ p hp
+      obtain ⟨p1, p2⟩ := hp
+      rw [hfb] at p1
+      show ((decide (128 ≤ p / 8) && decide (p / 8 < 512)) || decide (1024 ≤ p / 8)) = true
+      have : 1024 ≤ p / 8 := by omega
+      simp [this]
+    · intro r r' a1 a2 a3 a4 a5 hun p hp _
+      obtain ⟨p1, p2⟩ := hp
+      rw [hfb] at p1 p2
+      have p2' : p < 8192 + r' + 1 := p2
+      have a5' : r' ≤ r := a5
+      have hun' : ((decide (128 ≤ r * 8) && decide (r * 8 < 512)) || decide (1024 ≤ r * 8)) = false := hun
+      have hr16 : r < 16 := by
+        simp at hun'; omega
+      show (if p / 8 = 1026 then 16 else 0).testBit (p % 8) = false
+      have : p / 8 ≠ 1026 := by omega
+      simp [this]
+
+/-- outside the defect's case (`findPrev_own_region_defect`) the pinned and the repaired fast backward
+search are the same function. -/
+theorem findPrevFastOld_eq_fixed (env : MapEnv) (s : Spec) (m : Mem) (a limit : Nat)
+    (h : alignDown a (2 ^ s.logRegion) ≥ a - limit + 1 ∨ load s m a = 0) :
+    findPrevFastOld env s m a limit = findPrevFast env s m a limit := by
+  unfold findPrevFastOld findPrevFast
+  by_cases hmp : env.mapped a = true
+  · by_cases hl : load s m a ≠ 0
+    · have hge : alignDown a (2 ^ s.logRegion) ≥ a - limit + 1 := by
+        rcases h with h | h
+        · exact h
+        · exact absurd h hl
+      simp only [hmp, Bool.not_true, Bool.false_eq_true, if_false, hl, ne_eq, not_false_eq_true, if_true, hge]
+    · simp only [hmp, Bool.not_true, Bool.false_eq_true, if_false, hl, if_false]
+  · have hmp' : env.mapped a = false := by simpa using hmp
+    simp only [hmp', Bool.not_false, if_true]
+
+/-- **C22 (backward search, pinned code)**: the statement as first planned — the pinned
+`find_prev_non_zero_value_fast` agrees with the naive version whenever the own region's start is inside the
+limit or its field is zero (the complement is exactly `findPrev_own_region_defect`). -/
+theorem findPrevOld_fast_eq_simple (env : MapEnv) (henv : env.ok) (s : Spec) (hs : s.ok)
+    (hal : s.start % 2 ^ (s.logBits - 3) = 0) (hlr : s.logBits < 3 → s.logBits ≤ s.logRegion)
+    (hgran : 2 ^ s.logRegion ∣ env.gran) (m : Mem) (hm : ByteMem m) (a limit : Nat) (hlim : 0 < limit)
+    (ha0 : 0 < a) (ha1 : a + 1 < 2 ^ 64) (hmeta : metaAddr s a < 2 ^ 64 - 1)
+    (hmc : MapConsistent env s m ((a - limit + 1) / 2 ^ s.logRegion) (a / 2 ^ s.logRegion + 1) false)
+    (hside : alignDown a (2 ^ s.logRegion) ≥ a - limit + 1 ∨ load s m a = 0) :
+    findPrevFastOld env s m a limit = findPrevSimple env s m a limit := by
+  rw [findPrevFastOld_eq_fixed env s m a limit hside]
+  exact findPrev_fast_eq_simple env henv s hs hal hlr hgran m hm a limit hlim ha0 ha1 hmeta hmc
 
 end Mmtk.SideMeta
